@@ -61,6 +61,19 @@ def run(chk):
     for lst in ("1, 2", "X, 2", "1, 2, 3", "\"a\", \"b\"", "1, Nope"):
         for form in ("let T be {L}", "let Arr at 0 be {L}", "let it be {L}"):
             cases.append({"src": "put 5 into X\nsay \"before\"\n" + form.replace("{L}", lst) + "\nsay \"after\"\nsay T\n", "meta": {"op": "plain-assignment-list"}})
+    # evaluation order made observable by a callee that prints its argument: every statement with more than one evaluated part
+    loud = ("Loud takes V\nsay V\ngive back V\n\nPair takes A and B\ngive back A\n\nrock Inner with 5, 6, \"a-b\"\nrock Arr with 1, 2\nlet Arr at 2 be Inner\n"
+            "rock Idx with 0, 1, 2\n")
+    for st in ["let Arr at Loud taking 1 be Loud taking 2", "put Loud taking 1 into Arr at Loud taking 0", "rock Arr at Loud taking 2 with Loud taking 1, Loud taking 3",
+               "say Arr at Loud taking 2 at Loud taking 1", "say Loud taking 1 plus Loud taking 2 times Loud taking 3", "say Loud taking 1 is Loud taking 2",
+               "say Loud taking 1 minus Loud taking 2, Loud taking 3", "roll Arr at Loud taking 2 into Arr at Loud taking 0", "listen to Arr at Loud taking 0",
+               "let Arr at Loud taking 0 be with Loud taking 1", "say Pair taking Loud taking 1, Loud taking 2", "Pair taking Loud taking 1, Loud taking 2",
+               "turn up Arr at Loud taking 0", "cut Arr at Loud taking 2 at Loud taking 2 into Arr at Loud taking 1 with Loud taking \"-\"",
+               "if Loud taking 1 and Loud taking 0\nsay \"then\"\nelse\nsay \"else\"\n", "until Loud taking 1 or Loud taking 0\n\n",
+               "let Arr at roll Idx be roll Idx", "put roll Idx into Arr at roll Idx", "say roll Idx minus roll Idx", "rock Arr at roll Idx with roll Idx, roll Idx",
+               "say Arr at roll Idx at roll Idx", "build Arr at Loud taking 0 up", "say Loud taking Loud taking 1 with Loud taking 2",
+               "let Arr at Loud taking 0 at Loud taking 1 be Loud taking 2", "say not Loud taking 0 nor Loud taking 1", "give back Loud taking 1 with Loud taking 2"]:
+        cases.append({"src": loud + st + "\nsay Arr at 0\nsay Arr at 1\nsay Arr\nsay Idx\n", "stdin": "in\n", "meta": {"op": "evaluation-order"}})
     from . import compound
     for a, b, m in compound.pairs(ops=["with", "minus", "times", "over"] if quick else None):
         cases.append({"src": a, "meta": dict(m, form="compound")})
